@@ -15,7 +15,7 @@ import (
 	"pgregory.net/rapid"
 )
 
-// Known finding: `${property:file}` without `#key` indexes split[1] and panics.
+// Finding (fixed in /repo 0fc3597): `${property:file}` without `#key` indexed split[1] and panicked.
 const findingNoSeparator = "property-placeholder-without-key-panics"
 
 // Known finding: a variable holding a negative number is cast with ParseInt + uint(...) for an
@@ -423,43 +423,9 @@ func checkPh(c PhCase, o *vf.Obs) error {
 
 func TestPlaceholders(t *testing.T) {
 	r := startRun(t)
-	witnessNoSeparator(r)
-	witnessUintWrap(r)
+	witness(t, r, findingNoSeparator, PhCase{Conf: witnessConf, Site: "pools/0", Key: "id", Elem: -1, Src: "property", Mode: pNoSeparator,
+		Name: "K", File: "witness.prop", Comp: "pool/pool", Class: cg.CString}, checkPh)
+	witness(t, r, findingUintWrap, PhCase{Conf: witnessConf, Site: "pools/0/ammo", Key: "limit", Elem: -1, Src: "env", Mode: pInvalid,
+		Name: "VERIF_C17_WITNESS_NEG", Text: "-1", Comp: "ammo/uri", Class: cg.CUint}, checkPh)
 	vf.Check(r, genPh(r), checkPh)
-}
-
-func witnessNoSeparator(r *vf.Run) {
-	c := PhCase{Src: "property", Mode: pNoSeparator, Name: "K", File: "witness.prop"}
-	cleanup, err := c.install("v")
-	if err != nil {
-		return
-	}
-	defer cleanup()
-	conf := map[string]any{"pools": []any{map[string]any{
-		"id":      c.placeholder(),
-		"gun":     map[string]any{"type": "http", "target": "127.0.0.1:80"},
-		"ammo":    map[string]any{"type": "dummy"},
-		"result":  map[string]any{"type": "discard"},
-		"rps":     map[string]any{"type": "once", "times": 1},
-		"startup": map[string]any{"type": "once", "times": 1},
-	}}}
-	if res := decodeAll(conf); res.panicked {
-		r.KnownHit(findingNoSeparator)
-	}
-}
-
-func witnessUintWrap(r *vf.Run) {
-	const name = "VERIF_C17_WITNESS_NEG"
-	os.Setenv(name, "-1")
-	defer os.Unsetenv(name)
-	conf := map[string]any{"pools": []any{map[string]any{
-		"gun":     map[string]any{"type": "http", "target": "127.0.0.1:80"},
-		"ammo":    map[string]any{"type": "uri", "file": cg.FileURI, "limit": "${env:" + name + "}"},
-		"result":  map[string]any{"type": "discard"},
-		"rps":     map[string]any{"type": "once", "times": 1},
-		"startup": map[string]any{"type": "once", "times": 1},
-	}}}
-	if res := decodeAll(conf); res.accepted() {
-		r.KnownHit(findingUintWrap)
-	}
 }
